@@ -213,6 +213,9 @@ def call(data, box, velz, dt, pmode='ret', vmode='ret'):
             # a particle record before any header has no reference cell; the property says nothing about such streams:
             # NaN rows (checked by the callers when a result comes back) or a refusal are both acceptable
             return dict(pos=None, vel=None, n=None, raised=True, rejected=True, problems=[])
+        if 'preo' in (pmode, vmode) and isinstance(e, (ValueError, TypeError, AssertionError)):
+            # an output array of another float type than float_dtype: filling it or refusing it are both acceptable
+            return dict(pos=None, vel=None, n=None, raised=True, rejected=True, problems=[])
         # the property promises a decode for every other stream in the alphabet
         return dict(pos=None, vel=None, n=None, raised=True,
                     problems=[('raised:' + type(e).__name__, f'unpack_pack9 raised {type(e).__name__}: {str(e)[:300]}')])
